@@ -33,7 +33,7 @@ Origin(s) == [i \in 1..Len(s) |-> 0]
 Init == /\ shape \in Shapes
         /\ pos \in {Origin(shape), Middle(shape), Corner(shape)}
         /\ layout \in {"C", "F", "transposed", "strided", "readonly"}
-        /\ others \in {"moved", "scaled", "leave-domain", "huge", "zero"}
+        /\ others \in {"moved", "scaled", "leave-domain", "huge", "zero", "clustered"}      \* clustered: all elements within 1e-6 relative of the target (|x| > 1), then the others moved away
         /\ m \in {"central", "forward", "backward", "complex", "multicomplex"}
         /\ n \in 1..4 /\ o \in {2, 4}
         /\ (m = "multicomplex" => n <= 2)
